@@ -109,12 +109,23 @@ type caseCfg struct {
 	CommitsDays int
 	OffsetDays  int
 	Exclude     []string
-	Remote      string
+	Remote      string // first remote: receives the partial push of the generated history
+	Second      bool   // a second remote "upstream" with its own LFS store and branches pushed only to it
+	PruneCfg    string // lfs.pruneremotetocheck: "unset" or a remote name
+	RemoteRefs  string // lfs.fetchrecentremoterefs: unset | true | false
 	Cwd         string // top | subdir | worktree
 	TwoLFS      bool
 	ServerLoss  bool
 	Flagsets    [][]string
 	HistSeed    int64
+}
+
+// PruneRemote is the remote prune treats as "pushed to" (default origin).
+func (c caseCfg) PruneRemote() string {
+	if c.PruneCfg == "unset" {
+		return "origin"
+	}
+	return c.PruneCfg
 }
 
 // mix derives well-separated PRNG seeds from (run seed, case index, stream): math/rand
@@ -181,6 +192,30 @@ func genCfg(run *evid.Run, r *rand.Rand, idx int) caseCfg {
 	c.OffsetDays = dayChoices[r.Intn(4)]
 	c.Exclude = excludeChoices[r.Intn(len(excludeChoices))]
 	c.ServerLoss = r.Intn(2) == 0
+	// coordinates added later draw from their own stream so that the older coordinates of a case keep their values
+	r2 := rand.New(rand.NewSource(mix(run.Seed, idx, 3)))
+	c.Second = idx%3 == 2
+	c.RemoteRefs = []string{"unset", "unset", "true", "false"}[r2.Intn(4)]
+	c.PruneCfg = c.Remote
+	if c.Remote == "origin" && r2.Intn(4) != 0 {
+		c.PruneCfg = "unset"
+	}
+	if c.Second {
+		// index-driven (not drawn) so that every run, also a quick one, has each combination
+		k := idx / 3
+		switch k % 3 {
+		case 0:
+			c.Remote, c.PruneCfg = "origin", "unset"
+		case 1:
+			c.PruneCfg = c.Remote
+		case 2:
+			c.PruneCfg = "upstream"
+		}
+		c.RemoteRefs = []string{"unset", "true", "unset", "true", "unset", "false"}[(k/3+k)%6]
+		if k%2 == 0 && c.RefsDays == 0 { // the recent-refs clauses need a window in most second-remote cases
+			c.RefsDays = dayChoices[1+r2.Intn(3)]
+		}
+	}
 	n := len(flagPool)
 	period := idx / len(slotTags)
 	dry := append([]string{"--dry-run"}, flagPool[(idx*3+period)%n]...)
@@ -188,7 +223,7 @@ func genCfg(run *evid.Run, r *rand.Rand, idx int) caseCfg {
 	if f2 := (idx*3 + 1 + period) % n; f2 != idx%n {
 		c.Flagsets = append(c.Flagsets, flagPool[f2])
 	}
-	if c.Tag != "" || run.Thorough() {
+	if c.Tag != "" || c.Second || run.Thorough() {
 		// cases that carry a known trigger (and every thorough case) also get the two most telling flag sets
 		for _, must := range [][]string{{}, {"--force"}} {
 			present := false
@@ -663,11 +698,107 @@ func (c *cs) stepEvilMerge(dir string) {
 }
 
 func (c *cs) push(step string, args ...string) bool {
-	res := c.git(c.main, step, append([]string{"push", "-q", c.cfg.Remote}, args...)...)
+	return c.pushTo(c.cfg.Remote, step, args...)
+}
+
+func (c *cs) pushTo(remote, step string, args ...string) bool {
+	res := c.git(c.main, step, append([]string{"push", "-q", remote}, args...)...)
 	if res.OK() {
 		c.run.Count("pushes_ok", 1)
+		c.run.Count("pushes_ok_to_"+remote, 1)
 	}
 	return res.OK()
+}
+
+// windowAge picks a commit age inside (preferably in the offset part of) or outside the recent-refs window.
+func (c *cs) windowAge(r *rand.Rand, inside bool) float64 {
+	if c.cfg.RefsDays == 0 {
+		return ageDays[r.Intn(len(ageDays))]
+	}
+	w := float64(c.cfg.RefsDays + c.cfg.OffsetDays)
+	var ok, pref []float64
+	for _, a := range ageDays {
+		if inside && a <= w-0.5 {
+			ok = append(ok, a)
+			if a >= float64(c.cfg.RefsDays)+0.5 {
+				pref = append(pref, a)
+			}
+		}
+		if !inside && a >= w+0.5 {
+			ok = append(ok, a)
+		}
+	}
+	if len(pref) > 0 && r.Intn(2) == 0 {
+		ok = pref
+	}
+	if len(ok) == 0 {
+		return ageDays[r.Intn(len(ageDays))]
+	}
+	return ok[r.Intn(len(ok))]
+}
+
+// remoteOnlyBranch creates branch name with two fresh LFS files at the current commit, pushes it to remote only and
+// (unless keep) deletes the local branch: the objects are then referenced by refs/remotes/<remote>/<name> alone.
+func (c *cs) remoteOnlyBranch(remote, name string, age float64, keep bool) {
+	dir := c.main
+	back := strings.TrimSpace(string(c.env.PlainGit(dir, "rev-parse", "--abbrev-ref", "HEAD").Stdout))
+	detach := false
+	if back == "HEAD" || back == "" {
+		back = strings.TrimSpace(string(c.env.PlainGit(dir, "rev-parse", "HEAD").Stdout))
+		detach = true
+	}
+	if !c.git(dir, "remote-only-branch", "checkout", "-q", "-b", name).OK() {
+		return
+	}
+	a, b := c.name("topic"), "n/"+c.name("topic") // paths no lfs.fetchexclude pattern of the generator matches
+	c.writeLFS(dir, a)
+	c.writeLFS(dir, b)
+	c.git(dir, "add", "add", "--", a, b)
+	ok := c.gitEnv(dir, "commit", c.dateEnv(age), "commit", "-q", "-m", fmt.Sprintf("%s, pushed to %s only (age %.1fd)", name, remote, age)).OK()
+	pushed := ok && c.pushTo(remote, "push-remote-only", name)
+	if detach {
+		c.git(dir, "remote-only-branch", "checkout", "-q", "--detach", back)
+	} else {
+		c.git(dir, "remote-only-branch", "checkout", "-q", back)
+	}
+	if !pushed {
+		return
+	}
+	c.run.Count("remote_only_branches_pushed", 1)
+	c.run.Count("remote_only_branches_pushed_to_"+map[bool]string{true: "prune_remote", false: "other_remote"}[remote == c.cfg.PruneRemote()], 1)
+	if keep {
+		c.feat["remote-branch-local-kept"] = true
+		return
+	}
+	if c.git(dir, "remote-only-branch", "branch", "-q", "-D", name).OK() {
+		c.feat["remote-only-branch"] = true
+		c.run.Count("remote_only_branches_local_deleted", 1)
+	}
+}
+
+// stepSecondRemote: second remote "upstream" with its own LFS store (remote.upstream.lfsurl); branches carrying
+// fresh objects are pushed only to it (ages on both sides of the recent-refs window), one more only to the first remote.
+func (c *cs) stepSecondRemote(r *rand.Rand) {
+	bare := c.env.InitBare("upstream.git")
+	c.mustGit(c.main, "setup", "remote", "add", "upstream", bare)
+	c.mustGit(c.main, "setup", "config", "remote.upstream.lfsurl", c.srv.Endpoint("upstream"))
+	c.feat["second-remote"] = true
+	if c.cfg.PruneRemote() == "upstream" {
+		// the prune remote should hold part of the generated history too, else everything is unpushed
+		for _, b := range c.g.Branches {
+			if r.Intn(2) == 0 {
+				c.pushTo("upstream", "push-branch-upstream", b)
+			}
+		}
+	}
+	c.remoteOnlyBranch("upstream", "topic1", c.windowAge(r, true), false)
+	c.remoteOnlyBranch("upstream", "topic2", c.windowAge(r, false), r.Intn(4) == 0)
+	if r.Intn(2) == 0 {
+		c.remoteOnlyBranch("upstream", "topic3", c.windowAge(r, true), r.Intn(4) == 0)
+	}
+	if !c.feat["nothing-pushed"] {
+		c.remoteOnlyBranch(c.cfg.Remote, "ftopic1", c.windowAge(r, r.Intn(3) != 0), false)
+	}
 }
 
 func (c *cs) buildState() {
@@ -689,7 +820,12 @@ func (c *cs) buildState() {
 	c.model = histgen.NewModel(c.env, c.main)
 	bare := c.env.InitBare(cfg.Remote + ".git")
 	c.mustGit(c.main, "setup", "remote", "add", cfg.Remote, bare)
-	c.mustGit(c.main, "setup", "config", "lfs.url", c.srv.Endpoint(cfg.Remote))
+	if cfg.Second {
+		// lfs.url would override every remote's endpoint: with two remotes each gets its own remote.<name>.lfsurl
+		c.mustGit(c.main, "setup", "config", "remote."+cfg.Remote+".lfsurl", c.srv.Endpoint(cfg.Remote))
+	} else {
+		c.mustGit(c.main, "setup", "config", "lfs.url", c.srv.Endpoint(cfg.Remote))
+	}
 	c.mustGit(c.main, "setup", "config", "lfs.locksverify", "false")
 	if up := c.env.Run(sbx.RunOpt{Dir: c.main}, "git-lfs", "update"); !up.OK() {
 		c.run.Infra("git lfs update failed: %s", up)
@@ -722,6 +858,13 @@ func (c *cs) buildState() {
 		}
 	} else {
 		c.feat["nothing-pushed"] = true
+	}
+	r2 := rand.New(rand.NewSource(mix(c.run.Seed, cfg.Idx, 4)))
+	if cfg.Second {
+		c.stepSecondRemote(r2)
+	} else if cfg.Idx%3 == 0 && !c.feat["nothing-pushed"] {
+		// single remote: a branch that exists only as remote-tracking ref of the prune remote
+		c.remoteOnlyBranch(cfg.Remote, "ftopic1", c.windowAge(r2, r2.Intn(3) != 0), false)
 	}
 	// seeded plan of local state
 	switch cfg.Tag {
@@ -815,8 +958,11 @@ func (c *cs) buildState() {
 	if len(cfg.Exclude) > 0 {
 		c.mustGit(c.main, "config", "config", "lfs.fetchexclude", strings.Join(cfg.Exclude, ","))
 	}
-	if cfg.Remote != "origin" {
-		c.mustGit(c.main, "config", "config", "lfs.pruneremotetocheck", cfg.Remote)
+	if cfg.PruneCfg != "unset" {
+		c.mustGit(c.main, "config", "config", "lfs.pruneremotetocheck", cfg.PruneCfg)
+	}
+	if cfg.RemoteRefs != "unset" {
+		c.mustGit(c.main, "config", "config", "lfs.fetchrecentremoterefs", cfg.RemoteRefs)
 	}
 	if len(cfg.Ambient) > 0 {
 		f, err := os.OpenFile(filepath.Join(c.env.Home, ".gitconfig"), os.O_APPEND|os.O_WRONLY, 0o644)
@@ -926,14 +1072,14 @@ func runCase(run *evid.Run, idx int) {
 	if cfg.ServerLoss {
 		must := orc.all()
 		var cand []string
-		for _, oid := range srv.Oids(cfg.Remote) {
+		for _, oid := range srv.Oids(cfg.PruneRemote()) {
 			if _, ok := full[oid]; ok && !must[oid] {
 				cand = append(cand, oid)
 			}
 		}
 		sort.Strings(cand)
 		for _, oid := range c.pick(cand, 2) {
-			srv.Delete(cfg.Remote, oid)
+			srv.Delete(cfg.PruneRemote(), oid)
 			lost = append(lost, oid)
 			run.Count("server_objects_deleted", 1)
 		}
@@ -960,7 +1106,15 @@ func runCase(run *evid.Run, idx int) {
 		if fl == "" {
 			fl = "(none)"
 		}
-		class := fmt.Sprintf("trigger=%s|attr=%s|ambient=%s|cwd=%s|flags=%s", c.trigger(), cfg.AttrID, cfg.AmbID, cfg.Cwd, fl)
+		remotes := "single-remote"
+		if cfg.Second {
+			remotes = "second-remote"
+		}
+		pr := map[bool]string{true: "upstream", false: "first"}[cfg.PruneRemote() == "upstream"]
+		if cfg.PruneCfg == "unset" {
+			pr = "default"
+		}
+		class := fmt.Sprintf("trigger=%s|attr=%s|ambient=%s|cwd=%s|%s,prune-remote=%s,remoterefs=%s|flags=%s", c.trigger(), cfg.AttrID, cfg.AmbID, cfg.Cwd, remotes, pr, cfg.RemoteRefs, fl)
 		run.Count("prune_runs", 1)
 		run.Count("objects_before", int64(len(before)))
 		run.Count("objects_after", int64(len(after)))
@@ -1006,12 +1160,17 @@ func runCase(run *evid.Run, idx int) {
 			}
 			for _, cl := range orc.required(force, recent) {
 				if why, ok := orc.clause[cl][oid]; ok {
-					flag(cl+"-object-pruned", c.trigger(), oid, why)
+					trig := c.trigger()
+					if cl == "recent-remote-ref" {
+						// trigger of this clause = whose remote-tracking branch keeps the object recent
+						trig = orc.remoteRefKind[oid]
+					}
+					flag(cl+"-object-pruned", trig, oid, why)
 				}
 			}
 			if verify {
 				run.Count("deleted_objects_checked_against_server", 1)
-				if _, onServer := srv.Get(cfg.Remote, oid); !onServer {
+				if _, onServer := srv.Get(cfg.PruneRemote(), oid); !onServer {
 					if why, ok := orc.reachable[oid]; ok {
 						// The trigger of this symptom is decided per object: an object that is reachable
 						// under a path matching lfs.fetchexclude carries the coordinate
@@ -1039,7 +1198,7 @@ func runCase(run *evid.Run, idx int) {
 			what := fmt.Sprintf("git lfs prune %s (exit %d) deleted %d object(s) it must retain [%s], e.g. %s: %s", fl, res.Code, len(objs), sig.Symptom, objs[0]["oid"], objs[0]["why"])
 			run.Violation(sig, what, c.detail(flags, map[string]any{"objects": objs, "symptom": sig.Symptom, "prune_stdout": sbx.Trunc(res.Stdout, 600), "prune_stderr": sbx.Trunc(res.Stderr, 600), "lost_on_server": lost, "halted": halted}))
 		}
-		run.Case(class, map[string]any{"case": idx, "class": class, "days": []int{cfg.RefsDays, cfg.CommitsDays, cfg.OffsetDays}, "fetchexclude": cfg.Exclude, "remote": cfg.Remote, "features": keys(c.feat),
+		run.Case(class, map[string]any{"case": idx, "class": class, "days": []int{cfg.RefsDays, cfg.CommitsDays, cfg.OffsetDays}, "fetchexclude": cfg.Exclude, "remote": cfg.Remote, "prune_remote": cfg.PruneRemote(), "second_remote": cfg.Second, "fetchrecentremoterefs": cfg.RemoteRefs, "features": keys(c.feat),
 			"objects_before": len(before), "deleted": len(deleted), "exit": res.Code, "must_retain": orc.sizes(), "history_ops": len(c.g.Log), "state_steps": len(c.steps)})
 	}
 	for f := range c.feat {
@@ -1056,9 +1215,9 @@ func main() {
 	if os.Getenv("VERIF_C05_KEEP") == "" {
 		defer sbx.RemoveBase()
 	}
-	run.Rule = "per repository: histgen history (branches, merges incl. octopus, orphan branches, tags, renames/copies/deletes, symlinks, exec bits, empty files, >=2 LFS files per commit in 3/4 of the cases) with commit ages drawn from {0.5,1.5,2.5,5,9,12,30} days; partial push (whole branch / ancestor / nothing / tags) through the pre-push hook to the in-driver fake LFS server; seeded plan over {local commits with 1-3 LFS files, delete+modify commits, stash plain/-u/--keep-index/--staged, staged files, unreachable objects, detached HEAD, branch switches, extra worktrees (detached or on a new branch, with staged file / local commit / stash), text files moving in and out of LFS tracking, later pushes, stash drop, objects deleted on the server} x lfs.fetchrecentrefsdays/fetchrecentcommitsdays/pruneoffsetdays in {0,1,3,7} x lfs.fetchexclude patterns x prune remote name x cwd {top, sub-directory, extra worktree} x attribute spelling {track line, text, eol=lf, text eol=lf, diff=custom; tagged: binary, -diff, custom driver declared binary} x ambient ~/.gitconfig profile (9 harmless profiles; tagged: diff.noprefix, log.showroot=false, diff.relative) x flag sets {--dry-run + X, (none), --recent, --force, --verify-remote, +--verify-unreachable, +--when-unverified=continue, combinations}. One evaluation = one `git lfs prune` run on the fully restored store. Class = (known trigger in the case, attribute spelling, ambient profile, cwd kind, flags). Each period of 18 cases has 10 without any known trigger and 8 with exactly one."
+	run.Rule = "per repository: histgen history (branches, merges incl. octopus, orphan branches, tags, renames/copies/deletes, symlinks, exec bits, empty files, >=2 LFS files per commit in 3/4 of the cases) with commit ages drawn from {0.5,1.5,2.5,5,9,12,30} days; partial push (whole branch / ancestor / nothing / tags) through the pre-push hook to the in-driver fake LFS server; seeded plan over {local commits with 1-3 LFS files, delete+modify commits, stash plain/-u/--keep-index/--staged, staged files, unreachable objects, detached HEAD, branch switches, extra worktrees (detached or on a new branch, with staged file / local commit / stash), text files moving in and out of LFS tracking, later pushes, stash drop, objects deleted on the server} x lfs.fetchrecentrefsdays/fetchrecentcommitsdays/pruneoffsetdays in {0,1,3,7} x lfs.fetchexclude patterns x prune remote name x cwd {top, sub-directory, extra worktree} x attribute spelling {track line, text, eol=lf, text eol=lf, diff=custom; tagged: binary, -diff, custom driver declared binary} x ambient ~/.gitconfig profile (9 harmless profiles; tagged: diff.noprefix, log.showroot=false, diff.relative) x remotes {single; in 1/3 of the cases a second remote `upstream` with its own LFS store, 2-3 branches with fresh objects pushed only to it with tip ages on both sides of the recent-refs window, one more pushed only to the first remote, local branches deleted (sometimes kept)} x lfs.pruneremotetocheck {unset, first remote, upstream} x lfs.fetchrecentremoterefs {unset, true, false} x flag sets {--dry-run + X, (none), --recent, --force, --verify-remote, +--verify-unreachable, +--when-unverified=continue, combinations}. One evaluation = one `git lfs prune` run on the fully restored store. Class = (known trigger in the case, attribute spelling, ambient profile, cwd kind, remotes/prune remote/fetchrecentremoterefs, flags). Each period of 18 cases has 10 without any known trigger and 8 with exactly one."
 	run.Assumptions = []string{
-		"must-retain is a lower bound: weakest readings are documented in oracle.go (stash = objects the stash commits add relative to their base commit; recent refs = local branches only; previous versions = pointers replaced by a pointer or deleted in a non-merge commit reachable through in-window commits; unpushed = in a tree of a commit reachable from a local branch/tag and in no tree of a commit reachable from refs/remotes/<prune remote>/*; fetchexclude exempts generously; --force waives everything but unpushed)",
+		"must-retain is a lower bound: weakest readings are documented in oracle.go (recent remote refs = tips of remote-tracking branches of every remote unless lfs.fetchrecentremoterefs=false; stash = objects the stash commits add relative to their base commit; recent refs = local branches only; previous versions = pointers replaced by a pointer or deleted in a non-merge commit reachable through in-window commits; unpushed = in a tree of a commit reachable from a local branch/tag and in no tree of a commit reachable from refs/remotes/<prune remote>/*; fetchexclude exempts generously; --force waives everything but unpushed)",
 		"commit ages are >= 12 h away from every window boundary; the only use of the wall clock is the base time the ages are subtracted from",
 		"objects reachable from the remote-tracking refs were uploaded by the pre-push hook (the fake server loses only the objects the driver deletes)",
 		"git 2.39.5, TZ=UTC",
